@@ -8,7 +8,8 @@
     `centre − |span| ≤ k/n ≤ centre + |span|` (strict for `0 < k < n`, `z ≠ 0`).
   * bridge lemmas from the model functions at `Rex` to these quantities, and the complete
     case analysis `ciIndices_eq` of `Quantile.ciIndices`.
-  * sorting facts over a linear order.
+  * sorting facts over a linear order; `bound_eq_nth`: over a linear order the self-comparison
+    check of `Quantile.bound` never fires, so `ci_sorted_unchecked` is plain element access there.
 -/
 import StatsCI.Lemmas.RR
 import StatsCI.Lemmas.Order
@@ -583,6 +584,14 @@ theorem nth_eq (xs : List T) (i : ℕ) (h : i < xs.length) :
     (Quantile.nth xs i : Outcome (Err W) T) = .ok xs[i] := by
   simp [Quantile.nth, h]
 
+omit [Scalar W] in
+/-- over a linear order every element is comparable with itself: the self-comparison check of
+    `bound` never fires and `bound` is plain element access -/
+@[simp] theorem bound_eq_nth (xs : List T) (i : ℕ) :
+    (Quantile.bound xs i : Outcome (Err W) T) = Quantile.nth xs i := by
+  unfold Quantile.bound
+  cases Quantile.nth (W := W) xs i <;> simp [Cmp.le]
+
 /-- `ci_sorted_unchecked` re-checks the quantile and then looks the ranks of `ci_indices` up -/
 theorem ciSortedUnchecked_eq_bind (crit : Crit W) (conf : Confidence W) (s : List T) (q : W) :
     Quantile.ciSortedUnchecked crit conf s q =
@@ -593,6 +602,7 @@ theorem ciSortedUnchecked_eq_bind (crit : Crit W) (conf : Confidence W) (s : Lis
         | .upper lo => (nth s lo).bind fun a => .ok (.upper a)
         | .lower hi => (nth s hi).bind fun b => .ok (.lower b) := by
   unfold Quantile.ciSortedUnchecked
+  simp only [bound_eq_nth]
   by_cases hq : (!(gt q (NumOps.zero : W) && Cmp.lt q (NumOps.one : W))) = true
   · rw [if_pos hq]
     unfold Quantile.ciIndices
